@@ -187,7 +187,9 @@ def run(ctx):
                 if ea and eb and a != b:
                     x, y = rr.choice([z for z in ea if z != "short"] or [5]), rr.choice([z for z in eb if z != "short"] or [5])
                     jobs.append(((vis[a]["n"], vis[b]["n"]), f"{vis[a]['name']}+{vis[b]['name']}", (x, y), 0))
-        jobs = list(dict.fromkeys(jobs))       # the seeded pairs may repeat: one run (and one run directory) per job
+        # the seeded / consecutive pairs may repeat under different labels: one run (and one run directory) per
+        # (call indices, errnos)
+        jobs = list({(j[0], str(j[2])): j for j in jobs}.values())
         ctx.count(f"visible_calls[{sc.name}@{sc.mode}]", len(vis))
 
         def one(job, sc=sc, si=si, tdir=tdir):
@@ -261,8 +263,8 @@ def run(ctx):
                 ctx.rm(rdir)
 
         handle(crash.pmap(one, jobs), second)
-        known_jobs = set(jobs)
-        second = [j for j in dict.fromkeys(second) if j not in known_jobs]
+        known_jobs = {(j[0], str(j[2])) for j in jobs}
+        second = list({(j[0], str(j[2])): j for j in second if (j[0], str(j[2])) not in known_jobs}.values())
         if second:
             ctx.count("second_level_fault_jobs", len(second))
             handle(crash.pmap(one, second), None)
